@@ -23,8 +23,8 @@ gen_mod() {
     echo "require github.com/ChainSafe/gossamer v0.0.0"
     echo "require github.com/anishathalye/porcupine v1.3.0"
     echo "replace github.com/ChainSafe/gossamer => /repo"
-  } > "$SIM/go.mod.new"
-  if ! cmp -s "$SIM/go.mod.new" "$SIM/go.mod"; then mv "$SIM/go.mod.new" "$SIM/go.mod"; else rm "$SIM/go.mod.new"; fi
+  } > "$SIM/go.mod.new.$$"
+  if ! cmp -s "$SIM/go.mod.new.$$" "$SIM/go.mod"; then mv "$SIM/go.mod.new.$$" "$SIM/go.mod"; else rm "$SIM/go.mod.new.$$"; fi
   if [ ! -f "$SIM/go.sum" ] || ! cmp -s /repo/go.sum "$BUILD/go.sum.src"; then
     cp /repo/go.sum "$BUILD/go.sum.src"
     cp /repo/go.sum "$SIM/go.sum"   # -mod=mod adds the harness-only sums (porcupine) from the module cache
@@ -33,9 +33,9 @@ gen_mod() {
 
 gen_overlay() {
   # shims are ADDED to /repo packages through -overlay (tag verif); /repo is untouched
-  python3 - "$SIM" "$BUILD" <<'EOF'
+  python3 - "$SIM" "$BUILD" "$1" <<'EOF'
 import json, os, sys
-sim, build = sys.argv[1], sys.argv[2]
+sim, build, world = sys.argv[1], sys.argv[2], sys.argv[3]
 rep = {}
 root = os.path.join(sim, "shims")
 for d, _, fs in os.walk(root):
@@ -43,22 +43,30 @@ for d, _, fs in os.walk(root):
         if f.endswith(".go"):
             rel = os.path.relpath(d, root)
             rep[os.path.join("/repo", rel, "zz_verif_" + f)] = os.path.join(d, f)
-extra = os.path.join(build, "overlay_extra.json")
+extra = os.path.join(build, "overlay_extra." + world + ".json")
 if os.path.exists(extra):
     rep.update(json.load(open(extra)))
-json.dump({"Replace": rep}, open(os.path.join(build, "overlay.json"), "w"), indent=1)
+# VERIF_EXTRA_OVERLAY: {"<file under /repo>": "<replacement>"} - used by sensitivity tests to swap in a
+# mutated copy of a /repo file without touching /repo
+xo = os.environ.get("VERIF_EXTRA_OVERLAY")
+if xo:
+    rep.update(json.load(open(xo)))
+tmp = os.path.join(build, "overlay." + world + ".json.tmp%d" % os.getpid())
+json.dump({"Replace": rep}, open(tmp, "w"), indent=1)
+os.replace(tmp, os.path.join(build, "overlay." + world + ".json"))
+os.replace(os.path.join(build, "overlay." + world + ".json"), os.path.join(build, "overlay." + world + ".json"))
 EOF
 }
 
 build_world() {
   local w="$1"
   gen_mod || return 2
-  rm -f "$BUILD/overlay_extra.json"
+  rm -f "$BUILD/overlay_extra.$w.json"
   if [ -x "$SIM/worlds/$w/prebuild.sh" ]; then
-    "$SIM/worlds/$w/prebuild.sh" "$BUILD" > "$BUILD/$w.prebuild.log" 2>&1 || { echo "TROUBLE BUILD-TROUBLE prebuild $w"; tail -30 "$BUILD/$w.prebuild.log"; return 2; }
+    "$SIM/worlds/$w/prebuild.sh" "$BUILD" "$BUILD/overlay_extra.$w.json" > "$BUILD/$w.prebuild.log" 2>&1 || { echo "TROUBLE BUILD-TROUBLE prebuild $w"; tail -30 "$BUILD/$w.prebuild.log"; return 2; }
   fi
-  gen_overlay || return 2
-  (cd "$SIM" && $GO test -c -tags verif -overlay "$BUILD/overlay.json" -o "$BUILD/$w.test" "./worlds/$w/") > "$BUILD/$w.build.log" 2>&1
+  gen_overlay "$w" || return 2
+  (cd "$SIM" && $GO test -c -tags verif -overlay "$BUILD/overlay.$w.json" -o "$BUILD/$w.test" "./worlds/$w/") > "$BUILD/$w.build.log" 2>&1
   if [ $? -ne 0 ]; then
     echo "TROUBLE BUILD-TROUBLE world=$w (see $BUILD/$w.build.log)"
     tail -40 "$BUILD/$w.build.log"
